@@ -41,6 +41,7 @@ MODELS = [
     (r'ReferenceOr::<.*>::boxed_item$', lambda ex, a, c: ex.mk_enum('ReferenceOr', 'Item', [Ref(Cell(a[0]))])),
     (r'<Box<.*> as AsRef<.*>>::as_ref$', lambda ex, a, c: a[0].cell.v if isinstance(a[0], Ref) and isinstance(a[0].cell.v, Ref) else a[0]),
     (r'IndexMap::<.*>::get::<', None),
+    (r'^<(schemars::schema::)?Schema as From<SchemaObject>>::from$', lambda ex, a, c: ex.mk_enum('Schema', 'Object', [a[0]])),
 ]
 
 
@@ -116,6 +117,12 @@ def eqz(a, b):
     return a == b
 
 
+def eqz_min(a, b):
+    """lower limits (minLength / minItems / minProperties): absent means 0, so `0` and absent accept the same values"""
+    zero = lambda v: z3.BitVecVal(0, 32) if v is None else v
+    return eqz(zero(a), zero(b))
+
+
 def run(tier, replay_file=None):
     chk = Check('C08', tier)
     models = [m for m in MODELS if m[1] is not None]
@@ -153,6 +160,7 @@ def run(tier, replay_file=None):
     array_object_kinds(chk, ex, b, explore)
     subschema_kinds(chk, ex, b, explore)
     annotations(chk, ex, b, explore)
+    extract_description(chk, ex, b)
     witnesses(chk)
     return chk.finish('one obligation per (instance kind, keyword-presence shape, execution path, clause)')
 
@@ -234,9 +242,48 @@ def report_numeric(chk, m, ty, fmt, has_mo, lo, hi, mo, mn, xmn, mx, xmx, tag, w
     chk.counterexample(f'{what}; JSON Schema {schema} -> native OpenAPI {nat.get("openapi")}', case, not nat.get('equivalent', False), role='numeric:' + ty)
 
 
-def report(chk, m, tag, what):
+SAME_KEYS = ['type', 'format', 'minLength', 'maxLength', 'pattern', 'minItems', 'maxItems', 'minProperties', 'maxProperties', 'enum', '$ref']
+
+
+def keyword_loss(inp, out, at=''):
+    """constraint keywords of a (concrete) JSON Schema that the published OpenAPI schema dropped, altered or invented"""
+    if not isinstance(out, dict): return [f'{at}: published {out!r}']
+    diff = []
+    for k in SAME_KEYS:
+        a, b_ = inp.get(k), out.get(k)
+        if k in ('minLength', 'minItems', 'minProperties'): a, b_ = a or 0, b_ or 0       # an absent lower limit is 0
+        if a != b_: diff.append(f'{at}/{k}: {inp.get(k)!r} -> {out.get(k)!r}')
+    if sorted(inp.get('required', [])) != sorted(out.get('required', [])): diff.append(f'{at}/required')
+    if bool(inp.get('uniqueItems')) != bool(out.get('uniqueItems')): diff.append(f'{at}/uniqueItems')
+    for k in ('items', 'not', 'additionalProperties'):
+        a, b_ = inp.get(k), out.get(k)
+        if isinstance(a, dict): diff += keyword_loss(a, b_, f'{at}/{k}')
+        elif a != b_: diff.append(f'{at}/{k}: {a!r} -> {b_!r}')
+    if sorted(inp.get('properties', {})) != sorted((out.get('properties') or {})): diff.append(f'{at}/properties')
+    else:
+        for k, v in inp.get('properties', {}).items(): diff += keyword_loss(v, out['properties'][k], f'{at}/properties/{k}')
+    for k in ('allOf', 'anyOf', 'oneOf'):
+        a, b_ = inp.get(k), out.get(k)
+        if (a is None) != (b_ is None) or (a is not None and len(a) != len(b_)): diff.append(f'{at}/{k}: {a!r} -> {b_!r}')
+        elif a is not None:
+            for i, (x, y) in enumerate(zip(a, b_)): diff += keyword_loss(x, y, f'{at}/{k}/{i}')
+    return diff
+
+
+def report(chk, m, tag, what, schema_of=None):
+    """a solver model of a dropped / altered keyword: rebuild the concrete JSON Schema it describes and publish it with the real code"""
     if m is None: return
-    chk.mismatches.append(f'{what} ({tag}); no native replay for this shape')
+    if schema_of is None:
+        chk.mismatches.append(f'{what} ({tag}); no native replay for this shape'); return
+    schema = schema_of(lambda t: m.eval(t, model_completion=True).as_long())
+    case = {'op': 'j2oas', 'schema': schema}
+    nat = replay([case])[0]
+    out = nat.get('openapi')
+    lost = keyword_loss(schema, out) if out is not None else [f'native: {nat}']
+    chk.counterexample(f'{what}; JSON Schema {schema} -> published {out}: {lost[:4]}', case, bool(lost), role='shape:' + tag.split('/')[0])
+
+
+REF = '#/components/schemas/R'
 
 
 def string_kind(chk, ex, b, explore):
@@ -256,7 +303,7 @@ def string_kind(chk, ex, b, explore):
             if t is None:
                 m = chk.prove(f'{tag}/kind', pc, z3.BoolVal(True)); report(chk, m, tag, f'string schema converted to {r}'); return
             g = lambda n: opt_val(ex, ex.field(t, n).v)
-            bad = [z3.Not(eqz(g('min_length'), mnl if has_min else None)), z3.Not(eqz(g('max_length'), mxl if has_max else None))]
+            bad = [z3.Not(eqz_min(g('min_length'), mnl if has_min else None)), z3.Not(eqz(g('max_length'), mxl if has_max else None))]
             p_ = g('pattern')
             bad.append(z3.BoolVal(not ((p_ is None and not has_pat) or (has_pat and isinstance(p_, SymStr) and p_.term.eq(pat.term)))))
             fm = dv(ex.field(t, 'format').v); fname = ex.variant_name(fm)
@@ -269,8 +316,16 @@ def string_kind(chk, ex, b, explore):
                 ok_en = len(en) == 2 and dv(en[0].v).discr == 1 and isinstance(dv(ex.payload(dv(en[0].v))), SymStr) and dv(ex.payload(dv(en[0].v))).term.eq(e1.term) and dv(en[1].v).discr == 0
                 bad.append(z3.BoolVal(not ok_en))
             else: bad.append(z3.BoolVal(len(en) != 0))
-            m = chk.prove(f'{tag}/keywords-preserved', pc, z3.Or(bad))
-            report(chk, m, tag, f'string keywords altered: {t}')
+            m = chk.prove(f'{tag}/keywords-preserved', pc, z3.Or(bad), prefer=[mnl == 0, mxl == 0])
+            def schema_of(val, has_min=has_min, has_max=has_max, has_pat=has_pat, has_enum=has_enum, fmt=fmt):
+                d = {'type': 'string'}
+                if has_min: d['minLength'] = val(mnl)
+                if has_max: d['maxLength'] = val(mxl)
+                if has_pat: d['pattern'] = 'p.*'
+                if has_enum: d['enum'] = ['e1', None]
+                if fmt: d['format'] = fmt
+                return d
+            report(chk, m, tag, f'string keywords altered: {t}', schema_of)
         explore(tag, mk, check)
 
 
@@ -331,11 +386,19 @@ def array_object_kinds(chk, ex, b, explore):
             if t is None:
                 m = chk.prove(f'{tag}/kind', pc, z3.BoolVal(True)); report(chk, m, tag, f'array schema converted to {r}'); return
             g = lambda n: opt_val(ex, ex.field(t, n).v)
-            bad = [z3.Not(eqz(g('min_items'), mni if has_min else None)), z3.Not(eqz(g('max_items'), mxi if has_max else None)),
+            bad = [z3.Not(eqz_min(g('min_items'), mni if has_min else None)), z3.Not(eqz(g('max_items'), mxi if has_max else None)),
                    z3.BoolVal(dv(ex.field(t, 'unique_items').v) != bool(uniq))]
             ch = g('items')
             bad.append(z3.BoolVal(not ((ch is None and items is None) or (ch is not None and items is not None and child_ok(ex, ch, items, rname)))))
-            m = chk.prove(f'{tag}/keywords-preserved', pc, z3.Or(bad)); report(chk, m, tag, f'array keywords altered: {t}')
+            m = chk.prove(f'{tag}/keywords-preserved', pc, z3.Or(bad), prefer=[mni == 0, mxi == 0])
+            def schema_of(val, items=items, has_min=has_min, has_max=has_max, uniq=uniq):
+                d = {'type': 'array'}
+                if items is not None: d['items'] = {'$ref': REF} if items == 'ref' else {'type': 'integer'}
+                if has_min: d['minItems'] = val(mni)
+                if has_max: d['maxItems'] = val(mxi)
+                if uniq is not None: d['uniqueItems'] = uniq
+                return d
+            report(chk, m, tag, f'array keywords altered: {t}', schema_of)
         explore(tag, mk, check)
     mnp, mxp = z3.BitVec('min_properties', 32), z3.BitVec('max_properties', 32)
     for props, required, addl, has_min, has_max in [([], [], None, 0, 0), (['p1', 'p2'], ['p1'], True, 1, 0), (['p1', 'p2'], ['p1', 'p2'], False, 0, 1),
@@ -356,7 +419,7 @@ def array_object_kinds(chk, ex, b, explore):
             if t is None:
                 m = chk.prove(f'{tag}/kind', pc, z3.BoolVal(True)); report(chk, m, tag, f'object schema converted to {r}'); return
             g = lambda n: opt_val(ex, ex.field(t, n).v)
-            bad = [z3.Not(eqz(g('min_properties'), mnp if has_min else None)), z3.Not(eqz(g('max_properties'), mxp if has_max else None))]
+            bad = [z3.Not(eqz_min(g('min_properties'), mnp if has_min else None)), z3.Not(eqz(g('max_properties'), mxp if has_max else None))]
             pm = dv(ex.field(t, 'properties').v)
             ok_p = isinstance(pm, PMap) and [k for k, _ in pm.items] == sorted(props) and all(child_ok(ex, c.v, 'ref' if props.index(k) % 2 else 'leaf', rname) for k, c in pm.items)
             rq = [dv(c.v) for c in dv(ex.field(t, 'required').v).items]
@@ -365,7 +428,16 @@ def array_object_kinds(chk, ex, b, explore):
             elif isinstance(addl, bool): ok_a = ap is not None and ex.variant_name(ap) == 'Any' and dv(ex.payload(ap)) is addl
             else: ok_a = ap is not None and ex.variant_name(ap) == 'Schema' and child_ok(ex, ex.payload(ap), 'ref' if addl == 'ref' else 'leaf', rname)
             bad += [z3.BoolVal(not ok_p), z3.BoolVal(sorted(rq) != sorted(required)), z3.BoolVal(not ok_a)]
-            m = chk.prove(f'{tag}/keywords-preserved', pc, z3.Or(bad)); report(chk, m, tag, f'object keywords altered: {t}')
+            m = chk.prove(f'{tag}/keywords-preserved', pc, z3.Or(bad), prefer=[mnp == 0, mxp == 0])
+            def schema_of(val, props=props, required=required, addl=addl, has_min=has_min, has_max=has_max):
+                d = {'type': 'object', 'properties': {p: ({'$ref': REF} if i % 2 else {'type': 'integer'}) for i, p in enumerate(props)}, 'required': list(required)}
+                if not props: del d['properties']
+                if not required: del d['required']
+                if addl is not None: d['additionalProperties'] = addl if isinstance(addl, bool) else ({'$ref': REF} if addl == 'ref' else {'type': 'integer'})
+                if has_min: d['minProperties'] = val(mnp)
+                if has_max: d['maxProperties'] = val(mxp)
+                return d
+            report(chk, m, tag, f'object keywords altered: {t}', schema_of)
         explore(tag, mk, check)
     # an object schema without validation keywords
     def check_plain(pc, r):
@@ -392,7 +464,9 @@ def subschema_kinds(chk, ex, b, explore):
                 if good:
                     lst = dv(ex.payload(k)).items
                     good = len(lst) == n and all(child_ok(ex, c.v, 'ref' if i % 2 == 0 else 'leaf', rname) for i, c in enumerate(lst))
-                m = chk.prove(f'{key}/{n}/alternatives-preserved-in-order', pc, z3.BoolVal(not good)); report(chk, m, key, f'{key} converted to {r}')
+                m = chk.prove(f'{key}/{n}/alternatives-preserved-in-order', pc, z3.BoolVal(not good))
+                jkey = {'all_of': 'allOf', 'any_of': 'anyOf', 'one_of': 'oneOf'}[key]
+                report(chk, m, key, f'{key} converted to {r}', lambda val, n=n, jkey=jkey: {jkey: [({'$ref': REF} if i % 2 == 0 else {'type': 'integer'}) for i in range(n)]})
             explore(f'{key}/{n}', mk, check)
     def mk_not():
         d = dict(all_of=ex.none(), any_of=ex.none(), one_of=ex.none(), **{'not': ex.some(b.boxed(b.ref(rname)))}, if_schema=ex.none(), then_schema=ex.none(), else_schema=ex.none())
@@ -403,6 +477,82 @@ def subschema_kinds(chk, ex, b, explore):
         good = k is not None and ex.variant_name(k) == 'Not' and child_ok(ex, ex.payload(k), 'ref', rname)
         m = chk.prove('not/preserved', pc, z3.BoolVal(not good)); report(chk, m, 'not', f'not converted to {r}')
     explore('not', mk_not, check_not)
+
+
+def same(a, b_):
+    """structural identity of two schema values (the code under test only moves / clones them)"""
+    a, b_ = dv(a), dv(b_)
+    if isinstance(a, Adt) and isinstance(b_, Adt):
+        if a.ty != b_.ty or a.discr != b_.discr or set(a.fields) != set(b_.fields): return False
+        return all(len(a.fields[k]) == len(b_.fields[k]) and all(same(x.v, y.v) for x, y in zip(a.fields[k], b_.fields[k])) for k in a.fields)
+    if isinstance(a, PVec) and isinstance(b_, PVec): return len(a.items) == len(b_.items) and all(same(x.v, y.v) for x, y in zip(a.items, b_.items))
+    if isinstance(a, (PMap, PSet)) and type(a) is type(b_):
+        return len(a.items) == len(b_.items) and all(k1 == k2 and same(x.v if isinstance(x, Cell) else x, y.v if isinstance(y, Cell) else y) for (k1, x), (k2, y) in zip(a.items, b_.items))
+    if isinstance(a, SymStr) and isinstance(b_, SymStr): return a.term.eq(b_.term)
+    if z3.is_expr(a) and z3.is_expr(b_): return a.eq(b_)
+    if isinstance(a, Opaque) or isinstance(b_, Opaque): return a is b_
+    return type(a) is type(b_) and a == b_
+
+
+def extract_description(chk, ex, b):
+    """schema_extract_description (how parameter / header schemas are placed): only the one-member `allOf` wrapper schemars emits for
+    a described $ref is unwrapped; anything else keeps every keyword and loses only its metadata, whose description is returned"""
+    F = mir.find(ex.fns, r'(^|::)schema_extract_description$')
+    desc, r0 = sstr('wrapper_description'), sstr('member_ref')
+    def member(i): return b.ref(r0) if i % 2 == 0 else b.schema(b.typed('Integer', format=ex.some(f'int{i}')))
+    def meta(): return ex.some(b.boxed(ex.mk_struct('Metadata', id=ex.none(), title=ex.none(), description=ex.some(desc), default=ex.none(), deprecated=False, read_only=False, write_only=False, examples=PVec())))
+    def obj(n, has_meta, extra, with_meta=None):
+        d = dict(all_of=ex.none(), any_of=ex.none(), one_of=ex.none(), **{'not': ex.none()}, if_schema=ex.none(), then_schema=ex.none(), else_schema=ex.none())
+        kw = {}
+        if n:
+            d['all_of'] = ex.some(PVec([Cell(member(i)) for i in range(n)]))
+            if extra == 'any_of': d['any_of'] = ex.some(PVec([Cell(member(1))]))
+            if extra == 'not': d['not'] = ex.some(b.boxed(member(1)))
+            kw['subschemas'] = ex.some(b.boxed(ex.mk_struct('SubschemaValidation', **d)))
+        if extra == 'type': kw['instance_type'] = ex.some(ex.mk_enum('SingleOrVec', 'Single', [b.boxed(ex.mk_enum('InstanceType', 'String'))]))
+        if extra == 'format': kw['format'] = ex.some('uuid')
+        if extra == 'enum': kw['enum_values'] = ex.some(PVec([Cell(b.jstr(sstr('only')))]))
+        if extra == 'string': kw['string'] = ex.some(b.boxed(ex.mk_struct('StringValidation', max_length=ex.some(z3.BitVec('mxl', 32)), min_length=ex.none(), pattern=ex.none())))
+        if has_meta if with_meta is None else with_meta: kw['metadata'] = meta()
+        return b.schema_object(**kw)
+    shapes = [(n, hm, None) for n in (1, 2, 3) for hm in (0, 1)] + [(1, 1, x) for x in ('any_of', 'not', 'type', 'format', 'enum', 'string')] + [(0, 1, 'type'), (0, 0, 'string'), (2, 1, 'type')]
+    seen = set()
+    for n, has_meta, extra in shapes:
+        tag = f'extract-description/allOf{n}/{"described" if has_meta else "bare"}/{extra or "plain"}'
+        outs = ex.explore(lambda ex: ex.call_fn(F, [Ref(Cell(b.schema(obj(n, has_meta, extra))))]), [])
+        chk.paths += len(outs)
+        for pc, (k, r) in outs:
+            if k != 'ok':
+                m = chk.prove(f'{tag}/no-panic', pc, z3.BoolVal(True))
+                if m is not None: chk.mismatches.append(f'schema_extract_description panics on {tag}: {r}')
+                continue
+            got_d, got_s = opt_val(ex, r.items[0].v), r.items[1].v
+            trivial = n == 1 and extra is None
+            want_s = member(0) if trivial else b.schema(obj(n, has_meta, extra, with_meta=False))
+            seen.add('unwrapped' if trivial else 'kept')
+            good = same(got_s, want_s) and ((isinstance(got_d, SymStr) and got_d.term.eq(desc.term)) if has_meta else got_d is None)
+            m = chk.prove(f'{tag}/every-constraint-kept-description-returned', pc, z3.BoolVal(not good))
+            if m is None: continue
+            # the same shape through the public API: the schema of a declared response header
+            mem = lambda i: {'type': 'string', 'pattern': f'p{i}'}
+            schema = {}
+            if n: schema['allOf'] = [mem(i) for i in range(n)]
+            if extra == 'any_of': schema['anyOf'] = [mem(1)]
+            if extra == 'not': schema['not'] = mem(1)
+            if extra == 'type' or extra == 'string': schema['type'] = 'string'
+            if extra == 'format': schema['format'] = 'uuid'
+            if extra == 'enum': schema['enum'] = ['only']
+            if extra == 'string': schema['maxLength'] = 7
+            if has_meta: schema['description'] = 'dd'
+            case = {'op': 'j2oas', 'schema': schema, 'as_header': True}
+            nat = replay([case])[0]
+            hdr = nat.get('header') or {}
+            want = mem(0) if trivial else {k_: v for k_, v in schema.items() if k_ != 'description'}
+            lost = keyword_loss(want, hdr.get('schema')) if 'header' in nat else [f'native: {nat}']
+            if has_meta and hdr.get('description') != 'dd' and (hdr.get('schema') or {}).get('description') != 'dd': lost.append('description')
+            chk.counterexample(f'schema_extract_description({tag}) returned ({got_d}, {str(got_s)[:300]}); as a response header {schema} is published as {hdr}: {lost[:4]}',
+                               case, bool(lost), role='extract-description')
+    if seen != {'unwrapped', 'kept'}: raise Inconclusive(f'vacuity: schema_extract_description outcomes {seen}')
 
 
 def annotations(chk, ex, b, explore):
